@@ -60,6 +60,7 @@ type c16Params struct {
 	stopAt   time.Duration
 	cancelAt time.Duration
 	slowCb   bool
+	failFrom int64 // requests starting at or beyond this index always fail with gRPC Unavailable (a dead back end); -1 = never
 }
 
 func (p *c16Params) String() string {
@@ -67,8 +68,8 @@ func (p *c16Params) String() string {
 	for _, x := range p.growth {
 		g += fmt.Sprintf("+%v:%d", x.at, x.size)
 	}
-	return fmt.Sprintf("%s scan=%v range=[%d,%d) batch=%d par=%d cont=%v match=%d/%s buf=%d preonly=%v size0=%d growth=%s err=%d%% short=%d%% stop=%v cancel=%v seed=%d fseed=%d",
-		p.id, p.scan, p.start, p.end, p.batch, p.par, p.cont, p.nMatch, p.mName, p.buf, p.preOnly, p.size0, g, p.errPct, p.shortPct, p.stopAt, p.cancelAt, p.seed, p.fseed)
+	return fmt.Sprintf("%s scan=%v range=[%d,%d) batch=%d par=%d cont=%v match=%d/%s buf=%d preonly=%v size0=%d growth=%s err=%d%% short=%d%% stop=%v cancel=%v failFrom=%d seed=%d fseed=%d",
+		p.id, p.scan, p.start, p.end, p.batch, p.par, p.cont, p.nMatch, p.mName, p.buf, p.preOnly, p.size0, g, p.errPct, p.shortPct, p.stopAt, p.cancelAt, p.failFrom, p.seed, p.fseed)
 }
 
 type c16Delivery struct {
@@ -96,6 +97,9 @@ type c16Client struct {
 	beyond    []string
 	maxSize   int64
 	calls     int
+	sthFlight int  // GetSTH calls in flight
+	returned  bool // Run / ScanLog has returned
+	lateSTH   int  // GetSTH calls in flight when it returned, or started afterwards: the range generator outlived Run
 	runaway   string
 	abort     context.CancelFunc
 }
@@ -113,11 +117,20 @@ func (c *c16Client) GetSTH(ctx context.Context) (*ct.SignedTreeHead, error) {
 	c.mu.Lock()
 	n := c.sthCalls
 	c.sthCalls++
+	c.sthFlight++
+	if c.returned {
+		c.lateSTH++
+	}
 	c.mu.Unlock()
 	h := c16Hash(c.p.fseed, 0x5747, uint64(n), 1)
 	time.Sleep(c16Latencies[h%uint64(len(c16Latencies))])
 	c.mu.Lock()
 	defer c.mu.Unlock()
+	c.sthFlight--
+	if c.returned {
+		// the scan is over for the caller: do not feed the trace, do not let the generator go on
+		return nil, errors.New("verif: scan already returned")
+	}
 	if int((h>>8)%100) < c.p.sthErr && n > 0 {
 		c.out.T("sth err", "ok")
 		return nil, errors.New("verif: scripted GetSTH failure")
@@ -180,6 +193,10 @@ func (c *c16Client) GetRawEntries(ctx context.Context, start, end int64) (*ct.Ge
 	if start < 0 || end < start || end >= c.size {
 		c.beyond = append(c.beyond, fmt.Sprintf("GetRawEntries(%d,%d) with tree size %d", start, end, c.size))
 		return fail(jsonclient.RspError{Err: errors.New("verif: bad range"), StatusCode: http.StatusBadRequest})
+	}
+	if c.p.failFrom >= 0 && start >= c.p.failFrom {
+		// permanently failing: the only way out for the worker holding this range is the cancellation of its context
+		return fail(status.Error(codes.Unavailable, "verif: back end down"))
 	}
 	if int((h>>8)%100) < c.p.errPct && c.errRun[key] < 3 {
 		switch (h >> 16) % 6 {
@@ -313,11 +330,15 @@ func c16Run(out *verifkit.Out, p *c16Params) {
 		stopped   bool
 		cancelled bool
 		finalEnd  int64
+		stopT     time.Duration
+		cancelT   time.Duration
+		retT      time.Duration
 	)
 	pan := verifkit.Guard(func() {
 		synctest.Run(func() {
 			ctx, cancel := context.WithCancel(context.Background())
 			defer cancel()
+			t0 := time.Now()
 			c.mu.Lock()
 			c.abort = cancel
 			c.mu.Unlock()
@@ -354,6 +375,7 @@ func c16Run(out *verifkit.Out, p *c16Params) {
 					}
 					c.mu.Lock()
 					stopped = true
+					stopT = time.Since(t0)
 					out.T("stop", "ok")
 					c.mu.Unlock()
 					f.Stop()
@@ -368,6 +390,7 @@ func c16Run(out *verifkit.Out, p *c16Params) {
 					}
 					c.mu.Lock()
 					cancelled = true
+					cancelT = time.Since(t0)
 					out.T("cancel", "ok")
 					c.mu.Unlock()
 					cancel()
@@ -380,6 +403,11 @@ func c16Run(out *verifkit.Out, p *c16Params) {
 				} else {
 					runErr = f.Run(ctx, c.onBatch)
 				}
+				retT = time.Since(t0)
+				c.mu.Lock()
+				c.returned = true
+				c.lateSTH += c.sthFlight
+				c.mu.Unlock()
 			}()
 			select {
 			case <-fin:
@@ -388,7 +416,12 @@ func c16Run(out *verifkit.Out, p *c16Params) {
 				cancel()
 				<-fin
 			}
-			if p.scan {
+			c.mu.Lock()
+			late := c.lateSTH > 0
+			c.mu.Unlock()
+			if late {
+				finalEnd = -1 // not read: the generator goroutine may still be writing it
+			} else if p.scan {
 				finalEnd = s.fetcher.opts.EndIndex
 			} else {
 				finalEnd = fo.EndIndex
@@ -409,7 +442,7 @@ func c16Run(out *verifkit.Out, p *c16Params) {
 		if runErr != nil {
 			out.T("done", "0 err")
 		} else {
-			out.T("done", fmt.Sprintf("%d %d", len(c.callbacks), scanRet))
+			out.T(fmt.Sprintf("done ret=%d", scanRet), fmt.Sprintf("%d", len(c.callbacks)))
 		}
 	} else {
 		if runErr != nil {
@@ -424,6 +457,22 @@ func c16Run(out *verifkit.Out, p *c16Params) {
 		out.Fail("request-loop "+key, c.runaway)
 		cancelled = true // what was delivered before the abort is still checked for duplicates, range and payload
 	}
+	if c.lateSTH > 0 {
+		// Run has returned to its caller while the goroutine it started (genRanges → updateSTH) was still talking to the log;
+		// that goroutine then writes f.sth and f.opts.EndIndex, which the caller (ScanLog's return value) reads: a data race
+		out.Fail("generator-outlives-run "+key, fmt.Sprintf("%d GetSTH call(s) of the range generator were in flight or started after Run/ScanLog had returned", c.lateSTH))
+	}
+	// "terminates when cancelled": once the caller's context is cancelled the scan returns promptly, whatever the server does
+	// (a request in flight may take its scripted latency of at most 2.5 s; nothing else may hold it up)
+	if cancelled && c.runaway == "" && retT > cancelT+time.Minute {
+		out.Fail("cancel-slow "+key, fmt.Sprintf("context cancelled at %v, Run/ScanLog returned at %v", cancelT, retT))
+	}
+	if p.failFrom >= 0 {
+		out.Count("class:dead-backend")
+		if stopped && cancelled && stopT < cancelT && retT >= cancelT {
+			out.Count("observed:stop-alone-did-not-end-the-fetch-against-a-dead-backend")
+		}
+	}
 	if timedOut {
 		out.Fail("no-termination "+key, "Run/ScanLog had not returned after 1000 h of virtual time")
 	}
@@ -433,6 +482,10 @@ func c16Run(out *verifkit.Out, p *c16Params) {
 	if runErr != nil {
 		out.Count("outcome:error")
 		return // only when the very first GetSTH fails; nothing was delivered
+	}
+	if finalEnd < 0 {
+		out.Count("outcome:end-index-unreadable")
+		return
 	}
 	expectEnd := finalEnd
 	if !p.cont {
@@ -549,7 +602,7 @@ func c16Run(out *verifkit.Out, p *c16Params) {
 func c16Pick(r *verifkit.Rand, xs ...int) int { return xs[r.Intn(len(xs))] }
 
 func c16Gen(r *verifkit.Rand, it int) *c16Params {
-	p := &c16Params{id: fmt.Sprintf("s%d", it), target: -1}
+	p := &c16Params{id: fmt.Sprintf("s%d", it), target: -1, failFrom: -1}
 	p.seed = r.U64() % 4294967296
 	p.fseed = r.U64()
 	p.scan = it%3 == 2
@@ -627,6 +680,15 @@ func c16Gen(r *verifkit.Rand, it int) *c16Params {
 			p.cancelAt = time.Duration(1+r.Intn(4000)) * time.Millisecond
 		}
 	}
+	if r.Intn(16) == 0 && p.size0 > p.start {
+		// a back end that dies part-way: only cancellation ends the scan; sometimes Stop is tried first
+		p.failFrom = p.start + r.I64n(p.size0-p.start)
+		p.cancelAt = time.Duration(1+r.Intn(20)) * time.Minute
+		p.stopAt = 0
+		if r.Bool() {
+			p.stopAt = p.cancelAt / 2
+		}
+	}
 	if p.scan {
 		switch r.Intn(8) {
 		case 0:
@@ -668,6 +730,12 @@ func c16PickS(r *verifkit.Rand, xs ...string) string { return xs[r.Intn(len(xs))
 func TestVerifC16(t *testing.T) {
 	out := verifkit.Open()
 	defer out.Close()
+	defer func() {
+		// the run is under -race: every report of the detector is a failure of "for any … scheduling" with a concrete pair of accesses
+		for _, r := range verifkit.RaceReports() {
+			out.Fail("data-race "+r, "the race detector reported unsynchronised accesses (see the key); the run used -race with GORACE=log_path")
+		}
+	}()
 	r := verifkit.NewRand(verifkit.Seed())
 	n := verifkit.N(300, 2500)
 	// fixed boundary scenarios first
@@ -681,9 +749,20 @@ func TestVerifC16(t *testing.T) {
 		{id: "b6", target: -1, size0: 5, batch: 2, par: 2, nMatch: 1, seed: 7, cont: true, growth: []c16Growth{{time.Second, 6}, {50 * time.Second, 9}, {3 * time.Minute, 2500}}, stopAt: 20 * time.Minute, shortPct: 30},
 		{id: "b7", target: -1, scan: true, size0: 120, batch: 16, par: 4, nMatch: 8, buf: 0, seed: 8, matcher: MatchAll{}, mName: "all", shortPct: 60, errPct: 10, slowCb: true},
 		{id: "b9", target: -1, size0: 5, start: 8, batch: 2, par: 2, nMatch: 1, seed: 10, cont: true, growth: []c16Growth{{time.Second, 6}, {50 * time.Second, 9}, {3 * time.Minute, 20}}, stopAt: 20 * time.Minute},
+		{id: "c0", target: -1, size0: 50, batch: 5, par: 2, nMatch: 1, seed: 20, failFrom: 20, cancelAt: 5 * time.Minute, shortPct: 30},
+		{id: "c1", target: -1, size0: 50, batch: 5, par: 3, nMatch: 1, seed: 21, failFrom: 20, stopAt: 2 * time.Minute, cancelAt: 30 * time.Minute},
+		{id: "c2", target: -1, scan: true, size0: 60, batch: 8, par: 2, nMatch: 2, buf: 1, seed: 22, failFrom: 17, cancelAt: 3 * time.Minute, matcher: MatchAll{}, mName: "all"},
+		{id: "c3", target: -1, size0: 9, batch: 2, par: 2, nMatch: 1, seed: 23, failFrom: 30, cont: true, growth: []c16Growth{{20 * time.Second, 40}}, stopAt: 4 * time.Minute, cancelAt: 25 * time.Minute},
+		// continuous scan, the only fetcher is stuck on a dead back end, the generator (at the end of the range) accepts a bigger STH
+		// and then waits to hand out the next range; cancellation ends both. ScanLog then reads the end index the generator wrote.
+		{id: "r0", target: -1, scan: true, size0: 6, batch: 3, par: 1, nMatch: 1, seed: 24, failFrom: 3, cont: true, growth: []c16Growth{{30 * time.Second, 40}}, cancelAt: 10 * time.Minute, matcher: MatchAll{}, mName: "all"},
+		{id: "r1", target: -1, size0: 6, batch: 3, par: 1, nMatch: 1, seed: 25, failFrom: 3, cont: true, growth: []c16Growth{{30 * time.Second, 40}}, cancelAt: 10 * time.Minute},
 		{id: "b8", target: -1, scan: true, size0: 90, batch: 1000, par: 1, nMatch: 3, buf: 1000, seed: 9, matcher: CertParseFailMatcher{}, mName: "parsefail", preOnly: true},
 	}
 	for _, p := range fixed {
+		if p.failFrom == 0 {
+			p.failFrom = -1
+		}
 		p.fseed = p.seed * 77
 		out.Count("mode:fixed")
 		c16Run(out, p)
@@ -693,7 +772,7 @@ func TestVerifC16(t *testing.T) {
 	for it := 0; it < verifkit.N(2, 6); it++ {
 		p := c16Gen(r.Fork(), it)
 		p.id = fmt.Sprintf("sb%d", it)
-		p.scan, p.cont, p.end, p.cancelAt, p.matcher, p.mName, p.target, p.preOnly = false, true, 0, 0, nil, "", -1, false
+		p.scan, p.cont, p.end, p.cancelAt, p.matcher, p.mName, p.target, p.preOnly, p.failFrom = false, true, 0, 0, nil, "", -1, false, -1
 		p.size0 = int64(r.Intn(40))
 		p.start = p.size0 + 1 + int64(r.Intn(20))
 		p.growth = nil
